@@ -105,6 +105,7 @@ type Exec struct {
 	nameCount   map[string]int
 	recDone     map[*Term]bool
 	noOblige    int
+	modAllCount int
 	borrowed    map[*Term]string // array ids / refs owned by the caller
 }
 
@@ -686,7 +687,9 @@ func (ex *Exec) execLoop(fr *Frame, loops map[*ssa.BasicBlock]*loopInfo, li *loo
 	}
 	havoc := map[string]*hv{}
 	var result []edgeSt
-	for pass := 0; pass < 6; pass++ {
+	noAuto := false // set when the body calls something that may modify everything (modifies *)
+	for pass := 0; pass < 8; pass++ {
+		modAll0 := ex.modAllCount
 		nObs, nAss, nRets, nNames, nLog := len(ex.obs), len(ex.assumptions), len(fr.rets), len(fr.names), len(ex.callLog)
 		nSp, nSe := len(ex.spawned), len(ex.sends)
 		mark := currentVarMark()
@@ -734,7 +737,7 @@ func (ex *Exec) execLoop(fr *Frame, loops map[*ssa.BasicBlock]*loopInfo, li *loo
 				key string
 				t   *Term
 			}
-			if lc.NoAutoFrame {
+			if lc.NoAutoFrame || noAuto {
 				return out
 			}
 			for _, k := range keys {
@@ -811,6 +814,10 @@ func (ex *Exec) execLoop(fr *Frame, loops map[*ssa.BasicBlock]*loopInfo, li *loo
 		}
 		for _, r := range fr.rets[nRets:] {
 			scan(r.st)
+		}
+		if ex.modAllCount != modAll0 && !noAuto {
+			noAuto = true
+			grew = true
 		}
 		if grew {
 			// discard this pass
